@@ -147,6 +147,45 @@ CHECKS["C14"] = {'design_ref': 'DESIGN.md section 6 C14',
          'emitted datagrams, at most one outstanding probe and it is the newest segment, data intact on a '
          'black-holing path (D1, KF1).'}
 
+
+_DISP_NOTE = ("Trusted: Coq kernel, hand-written model of src/socket.rs (Dispatcher), extraction, drivers, the cfg-guarded DispatcherDriver hook, "
+              "generators. No axioms. The model's steps are run_once arms plus the channel operations of the other tasks; "
+              "connections themselves are opaque objects at this tier.")
+CHECKS["C12"] = {
+  "text": "Socket Dispatcher (stream table, connecting slots, accept queue) modelled with every shared channel explicit; theorems over EVERY "
+          "op list: connection keys unique, table never above the limit, a datagram is forwarded only to the live entry whose (peer address, "
+          "connection id) it names and forwarding changes nothing, creation happens only below the limit under a key not in use and never "
+          "replaces an entry, and NO step evicts a live connection (c12_live_never_evicted) - this last theorem became provable after the "
+          "repair of D11 (a late Shutdown(key) removed a connection that re-used the key; fix 20e33c8). Tied to the real Dispatcher by "
+          "differential op-list runs (one run_once at a time, including run_once parked in select!); extracted predicate c12_step_ok on impl traces.",
+  "design_ref": "DESIGN.md section 6 C12",
+  "note": _DISP_NOTE + " Partial: 'each connection carries its own byte stream intact' is C01 per connection; cross-connection interference "
+          "inside a connection object is impossible by construction (a message only reaches the object it is forwarded to).",
+  "technique": "Coq proof (invariant + per-step theorems over all op lists) + differential correspondence",
+}
+CHECKS["C13"] = {
+  "text": "Accept/connect service of the Dispatcher: theorems over EVERY op list: at most 32 SYNs retained and at most 32 accept calls queued; "
+          "a SYN that can be neither served nor queued gets exactly one ST_RESET with its sequence number, and only with a full backlog; the SYN "
+          "queue is served strictly from the front and a new SYN is served directly only when nothing is queued (arrival order) - provable after "
+          "the repair of D12 (a SYN arriving together with an accept call while the dispatcher was parked overtook cached SYNs; fix 205f51f); "
+          "a match hands exactly one new connection to exactly one live acceptor, a dead acceptor consumes no request; four connecting slots per "
+          "address, an abandoned connect releases its slot. Differential correspondence with the real Dispatcher; extracted predicate c13_step_ok.",
+  "design_ref": "DESIGN.md section 6 C13",
+  "note": _DISP_NOTE + " Partial: 'the two ends are wired to each other' (cross-matching ids and sequence numbers of StreamArgs) is checked by the "
+          "connection-level construction (vsock_new) rather than proved here; a duplicate SYN still queued after its connection ended creates a "
+          "second, peer-less accepted stream (documented boundary).",
+  "technique": "Coq proof (per-step theorems over all op lists) + differential correspondence",
+}
+CHECKS["C08"] = {
+  "text": "Socket-table half of the property: when the Shutdown of a connection that is gone is handled exactly its entry is released and nothing "
+          "else is touched (a Shutdown for a key since re-used by a live connection is ignored), the table stays within the limit, and a datagram "
+          "for a released or dead key reaches nobody. Theorems over every op list of the Dispatcher model + differential correspondence.",
+  "design_ref": "DESIGN.md section 6 C08",
+  "note": _DISP_NOTE + " Partial: termination of the connection task within a bounded time and silence after Ready are connection-level "
+          "(timers of VirtualSocket::poll) and are not covered by this check; promptness of CancellationToken is runtime behaviour.",
+  "technique": "Coq proof (per-step theorems over all op lists) + differential correspondence",
+}
+
 ALL = ["C%02d" % i for i in range(1, 20)]
 NOT_APPLICABLE = {p: "check not built yet at this commit (planned: DESIGN.md section 6); not claimed"
                   for p in ALL if p not in CHECKS}
